@@ -56,6 +56,18 @@ static void common_setup(const char* prop)
     if (acquire_configure(RT, &PROPS) != AcquireStatus_Ok) { fprintf(stderr, "harness: acquire_configure failed in setup\n"); exit(2); }
     rt_watch_flags(P_STREAMS, (int)vs_param("watch", 1));
     rt_watch_devices(P_STREAMS);
+    if (P_AVG > 1 && vs_param("watchpix", 1)) {
+        // The averaged frame is built in place in the sink ring by the filter thread (accumulate, normalize) and read by
+        // the sink thread and the client: the last pixel of every frame slot is a scheduling point, so the explorer can
+        // run a reader between any two of the filter's passes over a frame (e.g. between publishing and normalising).
+        static char nm[2][8][40];
+        size_t ofb = frame_bytes(P_W, P_H, SampleType_f32);
+        for (int s = 0; s < P_STREAMS; ++s)
+            for (int k = 0; k < 8 && (size_t)(k + 1) * ofb <= P_RING; ++k) {
+                snprintf(nm[s][k], sizeof nm[s][k], "video[%d].sink.in frame slot %d last pixel", s, k);
+                vs_watch(rt->video[s].sink.in.data + (size_t)k * ofb + sizeof(struct VideoFrame) + ((size_t)P_W * P_H - 1) * 4, 4, nm[s][k]);
+            }
+    }
 }
 
 // ---- client-side monitoring (C06 oracle lives here; used by C04/C05 as the "client pace" axis) ---
@@ -155,13 +167,21 @@ static void check_storage_complete(int s, int acq, int expect_n, const char* pro
         snprintf(cl, sizeof cl, "%s:camera-frame-count", prop);
         vs_fail(cl, "stream %d acquisition %d: camera delivered %d frames, the finite acquisition asked for %d", s, acq, nd, expect_n);
     }
-    if (nr > nd) {
+    if (P_AVG <= 1 && nr > nd) {
         snprintf(cl, sizeof cl, "%s:storage-got-more-than-delivered", prop);
         vs_fail(cl, "stream %d acquisition %d: storage received %d frames, the camera delivered only %d", s, acq, nr, nd);
     }
-    if (!prefix_ok && nr != nd) {
+    if (P_AVG <= 1 && !prefix_ok && nr != nd) {
         snprintf(cl, sizeof cl, "%s:frames-missing-at-storage", prop);
         vs_fail(cl, "stream %d acquisition %d: camera delivered %d frames but storage received %d (last stored id %lld)", s, acq, nd, nr, nr ? (long long)Rr[nr - 1]->frame_id : -1LL);
+    }
+    if (P_AVG > 1) {
+        // averaged stream: the exact-mean oracle is C10's; here only "no more output than complete windows (+1 trailing)", ids of window starts
+        int maxout = (nd + P_AVG - 1) / P_AVG;
+        if (nr > maxout) { snprintf(cl, sizeof cl, "%s:storage-got-more-than-delivered", prop); vs_fail(cl, "stream %d acquisition %d: %d averaged frames stored from %d inputs with window %d", s, acq, nr, nd, P_AVG); }
+        for (int i = 0; i < nr; ++i)
+            if (Rr[i]->frame_id != (uint64_t)(i * P_AVG)) { snprintf(cl, sizeof cl, "%s:storage-order-or-duplicate", prop); vs_fail(cl, "stream %d acquisition %d: %d-th averaged frame has frame_id %llu", s, acq, i, (unsigned long long)Rr[i]->frame_id); }
+        return;
     }
     for (int i = 0; i < nr; ++i) {
         if (Rr[i]->frame_id != (uint64_t)i) {
@@ -225,6 +245,7 @@ static void begin_acquisition(int reader_was_registered[2])
 }
 static int g_expect_first0[2];
 static int g_end_is_abort = 1;
+static int g_late_release, g_pending_late;
 static void client_check_first(int s, const char* prop)
 {
     // a reader that was registered before this acquisition started cannot miss its first frame
@@ -244,6 +265,9 @@ static void client_ops(const char* prog, const char* prop, int* held)
                 case 'h': client_poll(s, 0, (double)vs_param("hold_ms", 25), prop); break;
                 case 'w': vs_sleep_ms((double)vs_param("wait_ms", 12)); break;
                 case 'H': if (!g_end_is_abort) { client_poll(s, 0, (double)vs_param("hold_ms", 25), prop); break; } // holding across stop blocks the pipeline the client waits for: not legal use
+                    // fallthrough
+                case 'L': if (!g_end_is_abort) { client_poll(s, 0, (double)vs_param("hold_ms", 25), prop); break; }
+                    g_late_release |= 1 << s; // like H, but the stale region is handed back only after the NEXT acquisition has started
                     // fallthrough
                 case 'Q': { // map and keep holding across the end call
                     struct VideoFrame *b = 0, *e = 0;
@@ -315,6 +339,7 @@ static void c06_run(void)
         begin_acquisition(reg);
         for (int s = 0; s < P_STREAMS; ++s) g_expect_first0[s] = reg[s];
         OKQ(acquire_start(RT));
+        if (g_pending_late) { release_held(g_pending_late, "C06"); g_pending_late = 0; } // the late hand-back of a region held across the previous abort
         int held = 0;
         g_end_is_abort = ends[a] == 'a';
         if (a >= from) client_ops(prog, "C06", &held);
@@ -329,6 +354,7 @@ static void c06_run(void)
             }
         }
         if (ends[a] == 'a') OKQ(acquire_abort(RT)); else OKQ(acquire_stop(RT));
+        if (g_late_release) { g_pending_late = held & g_late_release; held &= ~g_late_release; g_late_release = 0; }
         release_held(held, "C06");
         check_quiescent("C06", ends[a] == 'a' ? "abort" : "stop");
         // nothing of this acquisition may be delivered later: a poll now must be empty
@@ -341,6 +367,7 @@ static void c06_run(void)
             }
         vs_observe_u64((uint64_t)MON[0].frames_seen);
     }
+    if (g_pending_late) { release_held(g_pending_late, "C06"); g_pending_late = 0; }
 }
 static void c06_check(void)
 {
@@ -378,6 +405,8 @@ static void c07_run(void)
         OKQ(acquire_abort(RT));
         vs_join(t);
     }
+    int late = 0; // prog op 'L': the region held across the abort is handed back only after the follow-up has started
+    if (g_late_release) { late = held & g_late_release; held &= ~g_late_release; g_late_release = 0; }
     release_held(held, "C07");
     check_quiescent("C07", vs_param("ctl_stop", 0) ? "stop" : "abort");
     for (int s = 0; s < P_STREAMS; ++s) check_storage_complete(s, 1, -1, "C07", 1);
@@ -388,6 +417,7 @@ static void c07_run(void)
     begin_acquisition(reg);
     for (int s = 0; s < P_STREAMS; ++s) g_expect_first0[s] = reg[s];
     OKQ(acquire_start(RT));
+    if (late) release_held(late, "C07");
     if (vs_param("client_polls", 0) || variant == 1) client_ops("mwm", "C07", &held);
     OKQ(acquire_stop(RT));
     check_quiescent("C07", "stop");
@@ -525,20 +555,24 @@ static void c08_configure(char which)
     for (int s = 0; s < 2; ++s) { p.video[s].camera.identifier.kind = DeviceKind_None; p.video[s].storage.identifier.kind = DeviceKind_None; p.video[s].max_frame_count = 2; p.video[s].frame_average_count = 0; }
     if (which == 'A') rt_select(&p, 0, "vcam0", "vstore0");
     if (which == 'B') rt_select(&p, 0, "vcam1", "vstore1");
+    if (which == 'F') { rt_select(&p, 0, "vcam0", "vstore0"); p.video[0].frame_average_count = 2; p.video[0].max_frame_count = 6; } // like A with frame averaging
+    if (which == 'R') { rt_select(&p, 0, "vcam0", "vstore0"); VM.cam[0].fail_set = 1; }  // like A, but the camera rejects the first set call of this configure
     if (which == 'C') rt_select(&p, 0, "vcam0", "vstore1"); // same camera, another storage of the same driver
     if (which == 'D') rt_select(&p, 0, "vcam1", "vstore0"); // another camera, same storage
     if (which == '2') { rt_select(&p, 0, "vcam0", "vstore0"); rt_select(&p, 1, "vcam1", "vstore1"); }
     acquire_configure(RT, &p); // may legitimately report an error (e.g. no stream): the oracle is the device monitor
+    VM.cam[0].fail_set = 0;
     rt_watch_devices(2);
 }
 static void c08_state_oracle(const char* after)
 {
+    // worker flags only fall during a call of the client (nobody else starts an acquisition), so "Running" is justified iff a
+    // worker was alive BEFORE the call; sampling them afterwards would race with workers that exit meanwhile
+    int alive_before = 0;
+    for (int s = 0; s < 2; ++s) alive_before |= rt->video[s].source.is_running | rt->video[s].filter.is_running | rt->video[s].sink.is_running;
     enum DeviceState st = acquire_get_state(RT);
-    if (st == DeviceState_Running) {
-        int alive = 0;
-        for (int s = 0; s < 2; ++s) alive |= rt->video[s].source.is_running | rt->video[s].filter.is_running | rt->video[s].sink.is_running;
-        if (!alive) vs_fail("C08:running-without-live-workers", "acquire_get_state reports Running after %s although no worker of any stream is alive", after);
-    }
+    if (st == DeviceState_Running && !alive_before)
+        vs_fail("C08:running-without-live-workers", "acquire_get_state reports Running after %s although no worker of any stream was alive", after);
     if ((after[0] == 'S' || after[0] == 'a') && st != DeviceState_Armed && st != DeviceState_AwaitingConfiguration)
         vs_fail("C08:not-armed-after-stop-or-abort", "acquire_get_state is %s right after %s", device_state_as_string(st), after[0] == 'S' ? "stop" : "abort");
 }
@@ -550,7 +584,7 @@ static void c08_run(void)
     for (const char* p = prog; *p; ++p) {
         char one[2] = { *p, 0 };
         switch (*p) {
-            case 'A': case 'B': case 'C': case 'D': case '2': case '0': c08_configure(*p); break;
+            case 'A': case 'B': case 'C': case 'D': case 'F': case 'R': case '2': case '0': c08_configure(*p); break;
             case 's': acquire_start(RT); break;
             case 't': acquire_execute_trigger(RT, 0); break;
             case 'm': {
@@ -596,8 +630,86 @@ static void c08_check(void)
     vs_observe_u64((uint64_t)vmock_store(0)->nreceived);
 }
 
+
+// ------------------------------------------------------------------------------------------------
+// c04real: the REAL devices of the common driver in the loop (simulated camera with its streamer thread, raw file writer)
+// under the scheduler: integration of C04 / C14 / C18.  Oracle: the raw file holds exactly N chained frames, ids 0..N-1,
+// strictly increasing hardware ids, the configured shape.
+// ------------------------------------------------------------------------------------------------
+#include <fcntl.h>
+#include <unistd.h>
+static char REAL_PATH[256];
+static int REAL_N;
+static void c04real_setup(void)
+{
+    rt_init();
+    VM.prop = "C04";
+    REAL_N = (int)vs_param("n", 3);
+    P_STREAMS = 1;
+    snprintf(REAL_PATH, sizeof REAL_PATH, "/verif/build/c04real-%d.raw", (int)getpid());
+    size_t fb = vmock_expected_frame_bytes(8, 8, SampleType_u8);
+    rt_resize_rings((size_t)vs_param("ringf", 2) * fb + (size_t)vs_param("ringx", 8), 2 * fb + 8, 0x42);
+    memset(&PROPS, 0, sizeof PROPS);
+    acquire_get_configuration(RT, &PROPS);
+    rt_select(&PROPS, 0, vs_param_str("camera", "simulated: empty"), vs_param_str("storage", "raw"));
+    PROPS.video[0].camera.settings.binning = 1;
+    PROPS.video[0].camera.settings.pixel_type = SampleType_u8;
+    PROPS.video[0].camera.settings.shape.x = 8; PROPS.video[0].camera.settings.shape.y = 8;
+    PROPS.video[0].camera.settings.exposure_time_us = 4000;
+    PROPS.video[0].camera.settings.input_triggers.frame_start.enable = (uint8_t)vs_param("trigger", 0);
+    PROPS.video[0].max_frame_count = (uint64_t)REAL_N;
+    rt_watch_flags(1, (int)vs_param("watch", 1));
+}
+static void c04real_trigger_thread(void* a)
+{
+    (void)a;
+    // a trigger that arrives while the camera is still exposing is coalesced: keep triggering until the acquisition is done
+    for (int i = 0; i < REAL_N + 5 && acquire_get_state(RT) == DeviceState_Running; ++i) { vs_sleep_ms(6); acquire_execute_trigger(RT, 0); }
+}
+static void c04real_run(void)
+{
+    // configured here, in the child: the raw writer locks its file, so every execution needs a path of its own
+    snprintf(REAL_PATH, sizeof REAL_PATH, "/verif/build/c04real-%d.raw", (int)getpid());
+    unlink(REAL_PATH);
+    storage_properties_init(&PROPS.video[0].storage.settings, 0, REAL_PATH, strlen(REAL_PATH) + 1, 0, 0, (struct PixelScale){ 1, 1 }, 0);
+    OKQ(acquire_configure(RT, &PROPS));
+    rt_watch_devices(1);
+    OKQ(acquire_start(RT));
+    int t = -1;
+    if (vs_param("trigger", 0)) t = vs_spawn(c04real_trigger_thread, 0, "triggerer");
+    if (vs_param("abort_instead", 0)) { vs_sleep_ms((double)vs_param("abort_after_ms", 9)); OKQ(acquire_abort(RT)); }
+    else OKQ(acquire_stop(RT));
+    if (t >= 0) vs_join(t);
+}
+static void c04real_check(void)
+{
+    static uint8_t buf[1 << 16];
+    int fd = open(REAL_PATH, O_RDONLY);
+    if (fd < 0) vs_fail("C04:real-devices:file-missing", "the raw file was not created");
+    ssize_t n = read(fd, buf, sizeof buf);
+    close(fd); unlink(REAL_PATH);
+    char msg[300];
+    int nf = vmock_check_packet(buf, buf + (n < 0 ? 0 : n), msg, sizeof msg);
+    if (nf < 0) vs_fail("C05:real-devices:file-not-a-frame-chain", "raw file of %zd bytes: %s", n, msg);
+    int aborted = (int)vs_param("abort_instead", 0);
+    if (!aborted && nf != REAL_N) vs_fail("C04:real-devices:frame-count", "the raw file holds %d frames, the finite acquisition of the simulated camera was %d", nf, REAL_N);
+    if (aborted && nf > REAL_N) vs_fail("C04:real-devices:frame-count", "the raw file holds %d frames, more than the %d requested", nf, REAL_N);
+    const uint8_t* cur = buf; uint64_t last_hw = 0;
+    for (int i = 0; i < nf; ++i) {
+        const struct VideoFrame* f = (const struct VideoFrame*)cur;
+        if (f->frame_id != (uint64_t)i) vs_fail("C04:real-devices:frame-order", "%d-th frame in the raw file has frame_id %llu", i, (unsigned long long)f->frame_id);
+        if (i && f->hardware_frame_id <= last_hw) vs_fail("C18:real-devices:hardware-id-not-increasing", "hardware frame id %llu after %llu", (unsigned long long)f->hardware_frame_id, (unsigned long long)last_hw);
+        if (f->shape.dims.width != 8 || f->shape.dims.height != 8 || f->shape.type != SampleType_u8) vs_fail("C04:real-devices:shape", "frame %d has shape %ux%u type %d", i, f->shape.dims.width, f->shape.dims.height, (int)f->shape.type);
+        last_hw = f->hardware_frame_id;
+        cur += f->bytes_of_frame;
+    }
+    vs_observe_u64((uint64_t)nf); vs_observe_u64(last_hw);
+    if (acquire_get_state(RT) != DeviceState_Armed) vs_fail("C04:not-armed-after-stop", "runtime state after stop is %d", (int)acquire_get_state(RT));
+}
+
 struct vs_scenario vs_scenarios[] = {
     { "c04", "finite acquisition start..stop; params n ringf ringx w h type exposure append_ms write_delay client streams", c04_setup, c04_run, c04_check },
+    { "c04real", "real simulated camera + raw file writer of the common driver in the loop (n, ringf, trigger, abort_instead)", c04real_setup, c04real_run, c04real_check },
     { "c06", "acquisitions ended by ends=[sa]+ with client program prog=[mpzhwH]*, monitoring from acquisition `from`", c06_setup, c06_run, c06_check },
     { "c06u", "like c06 with undrained_stop=1: the client stops polling and calls stop (known finding)", c06_setup, c06_run, c06_check },
     { "c07", "abort/stop from a controller thread (variant 0), the client (1) or both (2), then a follow-up acquisition", c07_setup, c07_run, c07_check },
